@@ -15,7 +15,7 @@ SHARD = 40
 CASE_TYPE = "case37"
 COQ_PRELUDE = "From MV Require Import Model.Tnet Corr.C36.\nFrom MV Require Import Corr.C37.\n"
 TRANSLATORS = ["flowreader_except"]
-RULE = ("kinds: trunc-stub 60% = 1-4 small generated records (value trees with floats/UTF-8/nested dicts, occasionally a "
+RULE = ("kinds: rotate 12% = the real Save addon with a strftime() save_stream_file (minute/second/day/directory patterns, optional filter, append mode) under a fake clock (save.datetime patched) whose ticks cross rotation boundaries between interleaved hooks of 2-5 flows of every type; after EVERY hook all stream files are re-read with FlowReader and must hold exactly the finished matching flows, in order, each complete; trunc-stub 48% = 1-4 small generated records (value trees with floats/UTF-8/nested dicts, occasionally a "
         "non-dict or a record on which from_state raises) read through the real FlowReader (from_state stubbed) at EVERY "
         "truncation offset; trunc-real 12% = files of 1-3 real flows of every type (generated field values) written by "
         "FlowWriter, every truncation offset through the real reader and real from_state (Coq side: boundaries +-2 and "
@@ -54,7 +54,24 @@ def gen(rng, n, tier):
     out = []
     for _ in range(n):
         r = rng.random()
-        if r < 0.60:
+        if r < 0.12:
+            rs = [base.flow_recipe(rng) for _ in range(rng.randint(2, 5))]
+            for x in rs:
+                x["cert"] = False
+            pending = [i for i in range(len(rs)) for _ in range(2)]
+            rng.shuffle(pending)
+            pos = {i: 0 for i in range(len(rs))}
+            order = []
+            for i in pending:
+                order.append([i, pos[i]])
+                pos[i] += 1
+            out.append({"k": "rotate", "recipes": rs, "order": order,
+                        "ticks": [rng.choice([0, 0, 1, 20, 45, 61, 61, 3600, 86400]) for _ in order],
+                        "pattern": rng.choice(["s-%Y%m%d-%H%M.mitm", "s-%Y%m%d-%H%M.mitm", "s-%Y%m%d-%H%M%S", "%Y%m%d/%H/s-%M", "s-%Y%m%d"]),
+                        "start": rng.choice([[2024, 5, 17, 11, 58, 30], [2023, 12, 31, 23, 59, 50], [2024, 2, 29, 0, 0, 0]]),
+                        "filter": rng.choice([None, None, None, "~http", "!~dns", "~tcp | ~udp"]),
+                        "append": rng.chance(0.3)})
+        elif r < 0.60:
             recs = []
             for _i in range(rng.randint(1, 4)):
                 q = rng.random()
@@ -223,7 +240,88 @@ def run_impl(case):
                 pass
             os.rmdir(d)
         return {"snaps": snaps, "nsaved": len(saved), "pre": 1 if pre else 0}
+    if k == "rotate":
+        return run_rotate(case)
     raise ValueError(k)
+
+
+HOOKS = {"http": ("request", "response"), "ws": ("request", "websocket_end"), "tcp": ("tcp_start", "tcp_end"),
+         "udp": ("udp_start", "udp_end"), "dns": ("dns_request", "dns_response")}
+
+
+def run_rotate(case):
+    """the real Save addon with a strftime() save_stream_file and a fake clock that crosses rotation
+    boundaries between hooks; after EVERY hook all stream files are re-read from disk"""
+    import datetime as _dt
+    import shutil
+    from mitmproxy import flowfilter
+    from mitmproxy.addons import save
+    from mitmproxy.test import taddons
+    base.load_cert()
+    tnet = M["tnet"]
+
+    class FakeDatetime(_dt.datetime):
+        now_value = _dt.datetime(*case["start"])
+
+        @classmethod
+        def today(cls):
+            return cls.now_value
+
+    flows = [base.mkflow(r) for r in case["recipes"]]
+    for i, f in enumerate(flows):
+        f.id = "flow-%d" % i
+    flt = flowfilter.parse(case["filter"]) if case["filter"] else None
+    d = tempfile.mkdtemp(prefix="c37-")
+    orig_dt = save.datetime
+    steps, finished = [], []       # finished: [id, state-json] of matching flows whose end hook has run
+    try:
+        save.datetime = FakeDatetime
+        sa = save.Save()
+        with taddons.context(sa) as tctx:
+            tctx.configure(sa, save_stream_file=("+" if case["append"] else "") + os.path.join(d, case["pattern"]),
+                           save_stream_filter=case["filter"])
+            for (i, phase), tick in zip(case["order"], case["ticks"]):
+                FakeDatetime.now_value += _dt.timedelta(seconds=tick)
+                f = flows[i]
+                t = case["recipes"][i]["type"]
+                start, end = HOOKS[t]
+                if t in ("http", "dns") and case["recipes"][i]["err"] and phase == 1:
+                    end = "error" if t == "http" else "dns_error"
+                if phase == 1 and (flt is None or flowfilter.match(flt, f)):
+                    finished.append([f.id, to_j(f.get_state())])
+                raised = None
+                try:
+                    getattr(sa, end if phase else start)(f)
+                except SystemExit:
+                    raised = "SystemExit"
+                except Exception as e:  # the addon manager logs hook errors and carries on  # noqa
+                    raised = type(e).__name__
+                files = sorted(os.path.join(r, x) for r, _, fs in os.walk(d) for x in fs)   # names sort chronologically
+                got, bad, fin_all = [], None, "clean"
+                for pth in files:
+                    with open(pth, "rb") as rd:
+                        out, fin, msg = _read_all(rd.read(), True)
+                    if fin != "clean" and fin_all == "clean":
+                        fin_all = f"{fin} in {os.path.relpath(pth, d)}"
+                    got += out
+                ids = [g.id for g in got]
+                exp = [x[0] for x in finished]
+                if ids == exp:
+                    for g, (fid, st) in zip(got, finished):
+                        if not base.py_eq_j(to_j(g.get_state()), st):
+                            bad = fid
+                            break
+                steps.append({"hook": (end if phase else start), "flow": f.id, "raised": raised, "files": len(files), "fin": fin_all,
+                              "ids": ids, "expected": exp, "bad_state": bad,
+                              "clock": FakeDatetime.now_value.isoformat()})
+            try:
+                sa.done()
+            except Exception:  # noqa
+                pass
+    finally:
+        save.datetime = orig_dt
+        shutil.rmtree(d, ignore_errors=True)
+    return {"steps": steps, "nfiles": steps[-1]["files"] if steps else 0, "nfinished": len(finished)}
 
 
 def _coq_offsets(offs):
@@ -312,6 +410,22 @@ def oracle(case, obs):
         if not obs["final_eq"]:
             v.append({"key": "final-file-differs", "what": "closed file differs from the concatenation of the matching flows' records"})
         return v
+    if k == "rotate":
+        for i, s in enumerate(obs["steps"]):
+            where = f"after hook #{i + 1} {s['hook']}({s['flow']}) at clock {s['clock']} (pattern {case['pattern']}, {s['files']} stream files)"
+            if s["raised"]:
+                v.append({"key": "save-hook-raised", "what": f"{where}: the hook raised {s['raised']}"})
+                break
+            if s["fin"] != "clean":
+                v.append({"key": "stream-file-incomplete", "what": f"{where}: a stream file does not read cleanly: {s['fin']}"})
+                break
+            if s["ids"] != s["expected"]:
+                v.append({"key": "stream-files-missing-finished-flow", "what": f"{where}: stream files hold {s['ids']}, finished matching flows are {s['expected']}"})
+                break
+            if s["bad_state"]:
+                v.append({"key": "stream-file-content", "what": f"{where}: {s['bad_state']} read back with a different state"})
+                break
+        return v
     if k == "savehooks":
         for i, s in enumerate(obs["snaps"]):
             if s["fin"] != "clean":
@@ -347,6 +461,8 @@ def classify(case, obs):
     elif k == "adds":
         tags.append(f"adds:filter={case['filter']}")
         tags.append(f"adds:written={sum(1 for i, s in enumerate(obs['snaps']) if s['len'] > (obs['snaps'][i - 1]['len'] if i else 0))}")
+    elif k == "rotate":
+        tags += [f"rotate:files={min(obs['nfiles'], 5)}", f"rotate:finished={min(obs['nfinished'], 5)}", f"rotate:filter={case['filter']}"]
     else:
         tags.append(f"savehooks:saved={min(obs['nsaved'], 4)}")
     return tags
